@@ -61,6 +61,8 @@ type constructs struct {
 	emptyIdent     bool // a dotted name with an empty part (`t.&&`: the tokenizer returns no text for && and ||)
 	rawStrings     map[string]bool // values of plain string fields (names the tree keeps as raw strings: charset, unit, type ...)
 	rawQuotedName  bool            // one of them is a quoted identifier of the input that cannot be read bare
+	root           string // type name of the statement node
+	gcSeparator    bool   // a GROUP_CONCAT separator containing a quote or backslash (kept as pre-rendered text)
 	oddDottedPart  bool // a dotted name whose later part starts with '/', '.' or '@' (re-tokenized as a path / variable when printed)
 }
 
@@ -136,6 +138,9 @@ func plainIdent(s string) bool {
 
 func analyse(t sqlparser.Statement) *constructs {
 	cs := &constructs{types: map[string]int{}, rawStrings: map[string]bool{}}
+	if rt := reflect.TypeOf(t); rt != nil && rt.Kind() == reflect.Ptr {
+		cs.root = rt.Elem().Name()
+	}
 	visitNodes(t, func(name string, v reflect.Value) {
 		cs.types[name]++
 		cs.nodes++
@@ -199,8 +204,13 @@ func analyse(t sqlparser.Statement) *constructs {
 				cs.typeQuoted = true
 			}
 		case "SetExpr":
-			if !bareOK("set", v.FieldByName("Name").FieldByName("val").String()) {
+			if n := v.FieldByName("Name").FieldByName("val").String(); n == "" || !bareOK("set", n) {
 				cs.setNameQuoted = true
+			}
+		case "GroupConcatExpr":
+			// Separator is the pre-rendered text ` separator '<raw bytes>'`
+			if sep := v.FieldByName("Separator").String(); len(sep) > 13 && strings.ContainsAny(sep[12:len(sep)-1], "'\\") {
+				cs.gcSeparator = true
 			}
 		case "ColName":
 			name := v.FieldByName("Name").FieldByName("val").String()
@@ -492,6 +502,15 @@ func check(c *core.Ctx, sc stmtCase, t1 sqlparser.Statement, idx int) *construct
 		case cs.rawQuotedName && (identSite || f.kind == "tree"):
 			// charset / collation / unit / type ... names are kept as Go strings and printed with %s
 			return "quoted-name-kept-as-raw-string-printed-bare"
+		case cs.root == "Show":
+			// Show keeps a pre-rendered Type string and drops most of the statement
+			return "show-statement-printed-lossily"
+		case cs.gcSeparator && f.kind == "reparse":
+			return "group-concat-separator-printed-unescaped"
+		case cs.types["ListArg"] > 0:
+			// `x IN ::` : vitess' list bind variable rule (col_tuple: LIST_ARG) survives although
+			// OctoSQL's tokenizer now returns `::` without a name; it prints as nothing
+			return "list-arg-remnant-printed-empty"
 		case cs.types["DDL"] > 0:
 			// vitess keeps only what its router needs of a DDL (ALTER/ANALYZE print as `alter table t`,
 			// trailing text after a partially parsed DDL is dropped)
